@@ -1,2 +1,3 @@
--- driver stub (replaced when the model for C08 is built)
-def main : IO Unit := pure ()
+import PyTough.Model.GridProto
+import PyTough.Py.Proto
+def main : IO Unit := Py.serve Model.Grid.Proto.handle
